@@ -434,9 +434,12 @@ class ExceptionInfo:
         """
         # TODO: add SyntaxError formatting
         tb_str = self.tb_info.get_formatted()
-        return ''.join([tb_str, f'{self.exc_type}: {self.exc_msg}'])
+        return ''.join([tb_str, self.get_formatted_exception_only()])
 
     def get_formatted_exception_only(self):
+        if not self.exc_msg:
+            # the interpreter prints the bare type for an empty message
+            return f'{self.exc_type}'
         return f'{self.exc_type}: {self.exc_msg}'
 
 
